@@ -232,18 +232,13 @@ def gen_factory(tier):
 
 
 def outcome_of(stepres):
+    """ok | rejected (any parse error: the wording and number of the message are not part of the property) | other"""
     r = stepres.get("r")
     if r == "ok":
         return "ok", ""
-    msg = stepres.get("msg", "") or ""
     if r == "perr":
-        low = msg.lower()
-        if "restricted" in low or "not allowed" in low:
-            return "refused", msg
-        if "undefined" in low or "not a function" in low or "unknown" in low:
-            return "undefined", msg
-        return "perr", msg
-    return r or "?", msg
+        return "rejected", stepres.get("msg", "") or ""
+    return r or "?", stepres.get("msg", "") or ""
 
 
 def check(case, res):
@@ -277,10 +272,8 @@ def check(case, res):
             vs.append(Violation(key, "expected to be accepted, got %s %r: %s" % (got, msg, where), case))
         elif want == "refused" and got == "ok":
             vs.append(Violation("restricted-accepted:%s" % e, "must be refused in an untrusted context, but was accepted: %s" % where, case))
-        elif want == "refused" and got != "refused":
-            # refused for another reason is still a refusal; note the class
-            if got not in ("perr", "undefined"):
-                vs.append(Violation("restricted-outcome:%s" % e, "expected a refusal, got %s %r: %s" % (got, msg, where), case))
+        elif want == "refused" and got != "rejected":
+            vs.append(Violation("restricted-outcome:%s" % e, "expected a refusal at compile time, got %s %r: %s" % (got, msg, where), case))
         elif want == "undefined" and got == "ok" and creates is False and e in ("u:ctor", "u:ctor-fn", "u:ctor-copy", "c:ctor", "c:ctor-fn"):
             vs.append(Violation("unloaded-module-constructed:%s" % e, "constructor accepted although the module is not loaded: %s" % where, case))
     # no object value in the untrusted contexts unless the model allows one
